@@ -181,10 +181,28 @@ func vfServe(rt vfRoute, readonly bool) (*zzvfbe.Recorder, *vfEvents) {
 		vfServeNative(rt, c, be, readonly)
 		return be, ev
 	}
-	_ = middlewares.AclParser(be, nil, readonly)(ctx)
+	// the ACL middleware and the route handler are the ones the real server constructor installs (s3api.New -> app.Use,
+	// S3ApiRouter.Init); the registrations are recorded by the fiber model. The harness starts after authentication.
+	zzvfbe.Routes = nil
+	opts := []Option{WithQuiet()}
+	if readonly {
+		opts = append(opts, WithReadOnly())
+	}
+	_, nerr := New(new(fiber.App), be, middlewares.RootUserConfig{Access: "root", Secret: "rootsec"}, "7070", "us-east-1", nil, nil, nil, ev, nil, opts...)
+	zzvf.Assert(nerr == nil, "server-constructed")
+	pattern := "/:bucket/:key/*"
+	if rt.bucket {
+		pattern = "/:bucket"
+	}
+	chain := zzvfbe.ChainTail(rt.method, pattern, 1)
+	zzvf.Assert(len(chain) == 2, "route-is-registered-behind-the-acl-middleware")
+	if len(chain) != 2 {
+		return be, ev
+	}
+	_ = chain[0](ctx)
 	if zzvfbe.W.NextCalls == 1 {
 		zzvf.Reach("handler-entered")
-		_ = rt.handler(c)(ctx)
+		_ = chain[1](ctx)
 	}
 	return be, ev
 }
